@@ -952,3 +952,77 @@ Proof.
   assert (existsb (str_eqb n) ro = true) by (apply existsb_exists; exists n; split; [exact Hn | apply str_eqb_refl]).
   congruence.
 Qed.
+
+(* ------------------------------------------------------------------------------------ *)
+(* 8. nullable                                                                            *)
+(* ------------------------------------------------------------------------------------ *)
+Fixpoint oas_ind' (P : oas -> Prop)
+  (HP : forall n xn t, P (OPrim n xn t))
+  (HA : forall n xn it, P it -> P (OArr n xn it))
+  (HO : forall n xn props req, Forall (fun kp => P (snd kp)) props -> P (OObj n xn props req))
+  (s : oas) : P s :=
+  match s with
+  | OPrim n xn t => HP n xn t
+  | OArr n xn it => HA n xn it (oas_ind' P HP HA HO it)
+  | OObj n xn props req =>
+      HO n xn props req
+        ((fix go (l : list (str * oas)) : Forall (fun kp => P (snd kp)) l :=
+            match l with
+            | [] => Forall_nil _
+            | kp :: l' => Forall_cons kp (oas_ind' P HP HA HO (snd kp)) (go l')
+            end) props)
+  end.
+
+Lemma wrap_nonnull st j v : v <> VNull -> jvalid (wrap st j) v = jvalid j v.
+Proof.
+  intros Hv. unfold wrap. destruct (wraps st); [|reflexivity]. cbn [jvalid].
+  destruct v; try contradiction; rewrite orb_false_r; reflexivity.
+Qed.
+
+Lemma wrap_null st j : jvalid j VNull = false -> jvalid (wrap st j) VNull = wraps st.
+Proof. intros Hj. unfold wrap. destruct (wraps st); [cbn [jvalid]; rewrite Hj; reflexivity | exact Hj]. Qed.
+
+Lemma conv_unfold d s : conv d s = wrap (eff d s)
+  match s with
+  | OPrim _ _ t => JsPrim t
+  | OArr _ _ it => JsArr (conv d it)
+  | OObj _ _ props req => JsObj (map (fun kp => (fst kp, conv d (snd kp))) props) req
+  end.
+Proof.
+  destruct s; cbn [conv]; try reflexivity. f_equal. f_equal.
+  induction props as [|[k p] l IH]; [reflexivity|]. cbn [map fst snd]. rewrite <- IH. reflexivity.
+Qed.
+
+(* the converted schema accepts null exactly when the effective keyword is true *)
+Lemma null_iff d s : jvalid (conv d s) VNull = true <-> eff d s = NTrue.
+Proof.
+  rewrite conv_unfold. rewrite wrap_null.
+  - destruct (eff d s); cbn; split; congruence.
+  - destruct s as [? ? t| |]; [destruct t|..]; reflexivity.
+Qed.
+
+Lemma conv_preserves d : forall s v, jvalid (conv d s) v = oas_valid d s v.
+Proof.
+  induction s as [n xn t | n xn it IH | n xn props req IH] using oas_ind'; intros v; rewrite conv_unfold.
+  - destruct v; try (rewrite wrap_nonnull by discriminate; reflexivity).
+    rewrite wrap_null by (destruct t; reflexivity). reflexivity.
+  - destruct v; try (rewrite wrap_nonnull by discriminate; reflexivity).
+    + rewrite wrap_null by reflexivity. reflexivity.
+    + rewrite wrap_nonnull by discriminate. cbn [jvalid oas_valid].
+      induction l as [|x l IHl]; [reflexivity|]. cbn [forallb]. rewrite IH, IHl. reflexivity.
+  - destruct v; try (rewrite wrap_nonnull by discriminate; reflexivity).
+    + rewrite wrap_null by reflexivity. reflexivity.
+    + rewrite wrap_nonnull by discriminate. cbn [jvalid oas_valid]. f_equal.
+      induction IH as [|[k p] ps Hp _ IHps]; [reflexivity|]. cbn [map fst snd] in *.
+      rewrite IHps. destruct (vget k l); [rewrite Hp|]; reflexivity.
+Qed.
+
+Definition o_example : oas :=
+  OObj NFalse NAbsent [([97]%N, OPrim NTrue NFalse PString); ([98]%N, OArr NAbsent NTrue (OPrim NFalse NAbsent PInteger))] [[97]%N].
+Lemma nullable_examples :
+  jvalid (conv false o_example) (VObj [([97]%N, VNull); ([98]%N, VArr [VInt])]) = true /\
+  jvalid (conv false o_example) (VObj [([97]%N, VStr); ([98]%N, VArr [VNull])]) = false /\
+  jvalid (conv false o_example) VNull = false /\
+  jvalid (conv true o_example) (VObj [([97]%N, VNull)]) = false /\
+  jvalid (conv true o_example) (VObj [([97]%N, VStr); ([98]%N, VNull)]) = true.
+Proof. repeat split; vm_compute; reflexivity. Qed.
